@@ -122,6 +122,10 @@ def evaluate(r, trains, edges, idx, name, kw, be, rank=()):
     r.evaluations += 1
     res = {}
     forms = [("indices", lambda: f(sts, indices=idx, **kwr)), ("sublist", lambda: f(sub, **kwr))]
+    if rank and rank[-1] == 0:
+        # the selection given as a tuple / as a numpy array (first keyword setting only)
+        forms.append(("indices as tuple", lambda: f(sts, indices=tuple(idx), **kwr)))
+        forms.append(("indices as numpy array", lambda: f(sts, indices=np.array(idx), **kwr)))
     if star:
         forms.append(("separate arguments", lambda: f(*sub, **kwr)))
     for nm, call in forms:
@@ -137,7 +141,7 @@ def evaluate(r, trains, edges, idx, name, kw, be, rank=()):
     for nm in res:
         if nm == "sublist":
             continue
-        if auto and nm == "indices" and len(idx) < len(trains):
+        if auto and nm.startswith("indices") and len(idx) < len(trains):
             continue
         if isinstance(res[nm], str) or isinstance(ref, str) or not obs_close(res[nm], ref, TOL):
             r.violation(ID, "forms", be, "forms/%s/%s" % (nm.split()[0], sig),
